@@ -46,6 +46,10 @@ fn main() -> Result<(), Box<dyn Error>> {
         }
     }
 
+    // replacing the children of the document node may have left it without its element
+    dom.document_element()
+        .map_err(|_| "The document has no root element.")?;
+
     let mut buf = BufWriter::new(io::stdout().lock());
     if arg.no_indent {
         buf.write_fmt(format_args!("{}\n", dom))?;
